@@ -524,16 +524,18 @@ func init() {
 			rd.set(st, sSl(SSeqI, c, m, sLen(SSeqI, c)))
 			return one(st, TV{SSeqI, sSl(SSeqI, c, "0", m)})
 		})
-	readInto := func(x *Exec, st *State, fr *Frame, cc *ssa.CallCommon, args []Val, instr ssa.Instruction) []Outcome {
-		rd := x.recvStream(st, fr, args[0], instr)
-		if rd == nil {
-			x.havocForUnknown(st, args[1:])
-			return one(st, x.symResult(st, cc))
+	readInto := func(mode int) func(x *Exec, st *State, fr *Frame, cc *ssa.CallCommon, args []Val, instr ssa.Instruction) []Outcome {
+		return func(x *Exec, st *State, fr *Frame, cc *ssa.CallCommon, args []Val, instr ssa.Instruction) []Outcome {
+			rd := x.recvStream(st, fr, args[0], instr)
+			if rd == nil {
+				x.havocForUnknown(st, args[1:])
+				return one(st, x.symResult(st, cc))
+			}
+			return x.readStream(st, rd, args[1], cc.Args[1].Type(), mode)
 		}
-		return x.readStream(st, rd, args[1], cc.Args[1].Type())
 	}
-	ext("(*bytes.Buffer).Read", "Buffer.Read(p): copies min(len(p), Len()) bytes; io.EOF iff the buffer is empty and len(p) > 0", readInto)
-	ext("(*bytes.Reader).Read", "Reader.Read(p): copies min(len(p), Len()) bytes; io.EOF iff nothing is left and len(p) > 0", readInto)
+	ext("(*bytes.Buffer).Read", "Buffer.Read(p): copies min(len(p), Len()) bytes; io.EOF iff the buffer is empty and len(p) > 0", readInto(eofBuffer))
+	ext("(*bytes.Reader).Read", "Reader.Read(p): copies min(len(p), Len()) bytes; io.EOF iff nothing is left (also for len(p) == 0)", readInto(eofReader))
 	ext("(*bytes.Buffer).ReadByte", "Buffer.ReadByte: next byte, or io.EOF when empty",
 		func(x *Exec, st *State, fr *Frame, cc *ssa.CallCommon, args []Val, instr ssa.Instruction) []Outcome {
 			rd := x.recvStream(st, fr, args[0], instr)
@@ -720,16 +722,33 @@ func (x *Exec) recvStream(st *State, fr *Frame, recv Val, instr ssa.Instruction)
 }
 
 // readStream: the contract of Read(p) on an in-memory stream.
-func (x *Exec) readStream(st *State, rd *stream, p Val, pt types.Type) []Outcome {
+// What a Read with len(p) == 0 on an exhausted stream returns differs between implementations:
+// bytes.Buffer answers (0, nil), bytes.Reader answers (0, io.EOF), and an io.Reader of unknown
+// dynamic type may do either.
+const (
+	eofBuffer  = iota // io.EOF iff nothing is left and len(p) > 0
+	eofReader         // io.EOF iff nothing is left
+	eofUnknown        // nothing left and len(p) == 0: either answer
+)
+
+func (x *Exec) readStream(st *State, rd *stream, p Val, pt types.Type, mode int) []Outcome {
 	rem := rd.get(st)
 	pl := x.lenOf(st, p, pt)
 	rl := sLen(SSeqI, rem)
 	var outs []Outcome
-	// EOF: nothing left and len(p) > 0
 	e := st.fork()
-	e.assume(tAnd(tEq(rl, "0"), tCmp("<", "0", pl)))
+	switch mode {
+	case eofBuffer:
+		e.assume(tAnd(tEq(rl, "0"), tCmp("<", "0", pl)))
+		st.assume(tOr(tCmp("<", "0", rl), tEq(pl, "0")))
+	case eofReader:
+		e.assume(tEq(rl, "0"))
+		st.assume(tCmp("<", "0", rl))
+	default:
+		e.assume(tEq(rl, "0"))
+		st.assume(tOr(tCmp("<", "0", rl), tEq(pl, "0")))
+	}
 	outs = append(outs, Outcome{e, TupleV{TV{SInt, "0"}, ErrV{Class: "1", Wrapped: "false"}}})
-	st.assume(tOr(tCmp("<", "0", rl), tEq(pl, "0")))
 	// a full read (the buffer is filled) and a short one are separate paths: the terms of the
 	// common case stay free of min(len(p), remaining)
 	short := st.fork()
